@@ -41,14 +41,18 @@ def main(argv):
     try:
         common.import_impl()
         mod = importlib.import_module("props." + pid)
-        translate.regenerate(ctx)
         ctx.extra_props = list(getattr(mod, "EXTRA_PROPS", []))
         try:
             central = json.load(open(os.path.join(common.VERIF, "harness", "extra_props.json")))["extra"].get(pid, [])
-        except Exception:
+        except Exception as e:  # a missing/unreadable table would silently drop obligations: that is a broken check
             central = []
+            ctx.problem("harness", "harness/extra_props.json missing or unreadable: obligations of this property cannot be listed", e)
         ctx.extra_props += [ns for ns in central if ns not in ctx.extra_props]
-        common.prove(ctx)
+        # regenerate + build + audit form one critical section (a concurrent check or seedtest run in the same tree must not
+        # rewrite Generated/* in between)
+        with common.lake_lock():
+            translate.regenerate(ctx)
+            common.prove(ctx)
         if hasattr(mod, "correspond"):
             mod.correspond(ctx)
         if hasattr(mod, "search"):
